@@ -288,18 +288,73 @@ def evaluate(ctx, bins, cases, tag):
     return by_id, out["M"], out["V"], out["NTI"], len(terms)
 
 
+def _spec(m, o):
+    """sequential spec on a dict (python mirror of SyncMap.spec; used only to keep the known-finding class narrow)"""
+    op, k, v = o["op"], o.get("k", 0), o.get("v", 0)
+    if op == "load":
+        return m, ("val", m.get(k))
+    if op in ("store", "put"):
+        m = dict(m)
+        m[k] = v if op == "store" else 0
+        return m, ("none",)
+    if op in ("los", "losf"):
+        if k in m:
+            return m, ("los", m[k], True)
+        m = dict(m)
+        m[k] = v
+        return m, ("los", v, False)
+    if op in ("delete", "remove"):
+        m = dict(m)
+        m.pop(k, None)
+        return m, ("none",)
+    if op == "exists":
+        return m, ("bool", k in m)
+    return m, ("list", sorted(m.items()))
+
+
+def _ret(o, r):
+    op = o["op"]
+    if op == "load":
+        return ("val", r["v"] if r["found"] else None)
+    if op in ("store", "delete", "put", "remove"):
+        return ("none",)
+    if op in ("los", "losf"):
+        return ("los", r["v"], r["loaded"])
+    if op == "exists":
+        return ("bool", r["found"])
+    return ("list", sorted((p[0], p[1]) for p in (r["pairs"] or [])))
+
+
+def lin_ok(recs, m=None):
+    """brute-force linearizability (Wing & Gong) of operation records"""
+    m = m or {}
+    if not recs:
+        return True
+    for i, a in enumerate(recs):
+        if any(b["res"] < a["inv"] for b in recs):
+            continue
+        m2, r = _spec(m, a["o"])
+        if r == _ret(a["o"], a["r"]) and lin_ok(recs[:i] + recs[i + 1:], m2):
+            return True
+    return False
+
+
 def classify_known(c):
-    """KF-C20c: a Range / ForEach whose interval overlaps >= 2 writes of other threads to distinct keys"""
+    """KF-C20c: a Range / ForEach whose interval overlaps >= 2 writes of other threads to distinct keys, in a history
+    that is linearizable once the Range / ForEach operations are left out (so nothing else is wrong with it)"""
     cc = c.get("case", {})
     if cc.get("kind") != "hist" or c.get("outcome") != "ok":
         return None
     recs = records_of(cc, c["events"])
+    hit = False
     for r in recs:
         if r["o"]["op"] in ("range", "toarray"):
             keys = {w["o"]["k"] for w in recs
                     if w["t"] != r["t"] and mutating(w["o"]) and w["inv"] < r["res"] and r["inv"] < w["res"]}
             if len(keys) >= 2:
-                return "KF-C20c"
+                hit = True
+    if hit and len(recs) <= 14 and lin_ok([r for r in recs if r["o"]["op"] not in ("range", "toarray")]):
+        return "KF-C20c"
     return None
 
 
